@@ -47,6 +47,9 @@ CHECKS["C12"] = ("statement formula from respondent-level counts and per-cell ba
 CHECKS["C13"] = ("respondent-level t / df / Student-t p (incomplete beta), Welch test from the response's means/stddevs/counts, overlap-corrected statistic from S/N tabulations, index sets recomputed from public t/p (Hypothesis)",
     "Generated-input search: weighted tables with and without squared weights (effective base), categorical / MR columns, subtotal rows and columns as selected or compared column, every alpha pair and only-larger flag; antisymmetry, symmetry, zero diagonal, index-set definition and alt-superset; legacy pairwise_significance_tests must agree with the current API on CAT x CAT (defect found and fixed).",
     "zz9 overlap measure semantics assumed as documented in the library's docstrings; behaviour under column reorder/hide is judged by C05.", "6 C13")
+CHECKS["C14"] = ("respondent-level multiset of opposing numeric values -> weighted mean, population std-dev, median by literal repetition, std-err; vs. slice and strand scale outputs (Hypothesis)",
+    "Generated-input search with partial / repeated / negative / unsorted numeric values and zero-count categories between populated ones: every row and column vector incl. subtotals, the four *_margin scalars on CAT x CAT, and strands. Two defects found and fixed (median at exact 50% split; strand median NaN vs None).",
+    "Median only for integer counts; differences not judged; margins judged without hidden vectors.", "6 C14")
 NOT_BUILT = {}
 
 def main():
